@@ -192,6 +192,18 @@ func (k *ck) roundTrip(t utype, ver int32, desc string, p udp.UdpPack) {
 }
 
 func (k *ck) agree(types []utype, vers []int32, kdev int) {
+	dist := packs.NewDistinct(filepath.Join(evid.Root, "harness", "props", "c07", "distinguishing.json"))
+	defer dist.Finish(k.c, "C07")
+	encOf := func(t utype, ver int32, base int, dev map[string]int) func() []byte {
+		return func() []byte {
+			o, _ := build(t, ver, base, dev)
+			b, err := enc(o)
+			if err != nil {
+				return nil
+			}
+			return b
+		}
+	}
 	var wg sync.WaitGroup
 	sem := make(chan struct{}, 16)
 	for _, t := range types {
@@ -211,6 +223,7 @@ func (k *ck) agree(types []utype, vers []int32, kdev int) {
 								continue
 							}
 							o1, _ := build(t, ver, base, map[string]int{s.Path: alt})
+							dist.Probe(fmt.Sprintf("%s@%d", t.name, ver), fmt.Sprintf("%d|%s|%d", base, s.Path, alt), encOf(t, ver, base, nil), encOf(t, ver, base, map[string]int{s.Path: alt}))
 							atomic.AddInt64(&k.nontriv, 1)
 							k.roundTrip(t, ver, fmt.Sprintf("base%d %s:=alt%d", base, s.Path, alt), o1)
 							if kdev < 2 {
@@ -404,22 +417,27 @@ func (k *ck) masking(maxTok int) {
 	tokens := []string{"a=1", "password=" + secret, "user=u", "x"}
 	seps := []string{" ", ";", "; ", " ;"}
 	var conns []string
-	var rec func(cur []string, sepIdx int)
-	for si := range seps {
-		si := si
-		rec = func(cur []string, _ int) {
-			if len(cur) > 0 {
-				conns = append(conns, strings.Join(cur, seps[si]))
+	// every token sequence up to maxTok with every choice of separator at every junction (a string may
+	// mix blanks and semicolons)
+	var rec func(cur string, n int)
+	rec = func(cur string, n int) {
+		if n > 0 {
+			conns = append(conns, cur)
+		}
+		if n == maxTok {
+			return
+		}
+		for _, t := range tokens {
+			if n == 0 {
+				rec(t, 1)
+				continue
 			}
-			if len(cur) == maxTok {
-				return
-			}
-			for _, t := range tokens {
-				rec(append(cur, t), si)
+			for _, sp := range seps {
+				rec(cur+sp+t, n+1)
 			}
 		}
-		rec(nil, si)
 	}
+	rec("", 0)
 	type mk struct {
 		name string
 		mk   func(ver int32, dbc string) (udp.UdpPack, func() string)
